@@ -2494,10 +2494,8 @@ class Qube(object):
 
         obj = self.clone()
 
-        if Qube.is_one_true(self._mask_):
-            return obj
-
-        obj._set_mask_(True)
+        if not Qube.is_one_true(self._mask_):
+            obj._set_mask_(True)
 
         if recursive:
             for (key,deriv) in self._derivs_.items():
